@@ -98,6 +98,7 @@ type c19World struct {
 	nextSecret uint64
 	ifaceNets  int
 	ifaces     []*net.IPNet // the harness's own reading of net.Interfaces()
+	ingestSeen map[string]bool
 }
 
 func (w *c19World) write(name, content string) string {
@@ -214,7 +215,10 @@ func (w *c19World) loadCase(out *vlib.Out, content string) c19Load {
 	// load.  "Enforced" is observed on addresses sampled inside every single entry (first, last, middle,
 	// pseudo-random) through the decision functions and through ParseOrResolveBlocklisted, so that an entry
 	// that is shadowed, merged or dropped because of another entry of the list shows.
-	en := &c19Enforce{rc: rc, raw: raw, fail: fail, out: out}
+	if w.ingestSeen == nil {
+		w.ingestSeen = map[string]bool{}
+	}
+	en := &c19Enforce{rc: rc, raw: raw, fail: fail, out: out, logger: w.logger, ifaces: w.ifaces, seen: w.ingestSeen}
 	en.run()
 	if raw.CovertBlocklistPublicAddrs && len(raw.CovertAllowlistSubnets) == 0 {
 		// covert_blocklist_public_addrs: every address of a local interface is refused (the harness's own
@@ -930,6 +934,35 @@ func (w *c19World) reloadCase(out *vlib.Out, evs []c19Event) {
 		if adm, wantAdm := pr.admission(rm.RegConfig), pr.expectAdmission(inForce, w.ifaces); adm != wantAdm {
 			fail("C19:admission-not-by-policy-in-force", fmt.Sprintf("after reload %d (%s, configuration loaded: %v): ParseOrResolveBlocklisted refuses %s of the literal probes %v, the version in force calls for %s",
 				k, e.String(), reloaded, adm, pr.addrs, wantAdm))
+		}
+		// … and at the outcome of the ingest on the running manager: no registration, from whatever source, whose
+		// phantom the version in force blocklists becomes connectable
+		if wp := strings.Split(pr.expect(inForce, w.ifaces), ":"); len(wp) == 3 {
+			covert := ""
+			for i, x := range pr.addrs {
+				if wp[0][i] == '0' && !net.ParseIP(x).IsUnspecified() {
+					covert = net.JoinHostPort(x, "443")
+					break
+				}
+			}
+			if covert != "" {
+				rm.registeredDecoys.transports[pb.TransportType_Min] = min.Transport{}
+				ing := &c19Ingester{rm: rm, secret: uint64(k) << 32}
+				for i, x := range pr.phantoms {
+					if wp[2][i] != '1' {
+						continue
+					}
+					for _, src := range c19Sources() {
+						out.Checked()
+						if c, p := ing.ingest(src, net.ParseIP(x), covert); p != "" {
+							fail("C19:ingest-panic", fmt.Sprintf("after reload %d (%s): ingestRegistration panicked for source %d, phantom %s: %s", k, e.String(), src, x, p))
+						} else if c {
+							fail("C19:phantom-entry-not-enforced-for-source", fmt.Sprintf("after reload %d (%s, configuration loaded: %v) the phantom blocklist in force covers %s, but a registration from source %d (%s) with that phantom and covert %q became connectable",
+								k, e.String(), reloaded, x, src, pb.RegistrationSource(src), covert))
+						}
+					}
+				}
+			}
 		}
 		if (strings.HasPrefix(e.conf, "bad-") || e.conf == "unreadable" || e.conf == "directory") && reloaded {
 			fail("C19:malformed-reload-accepted", fmt.Sprintf("reload %d: a configuration with a malformed entry (%s) was loaded", k, e.conf))
